@@ -20,6 +20,8 @@ DESCRIPTION = {
 RANK = {1: 1, 4: 1, 3: 2, 2: 3, 0: 4}   # CONNECTING/PROXY_CONNECTING, OPEN, CLOSING, CLOSED
 RANK_NAME = {1: "connecting", 2: "open", 3: "closing", 4: "closed"}
 
+LONG_TEXT = "the application refuses this peer: " + "é" * 70 + "€" * 20 + "x" * 90      # as a failure reason: far more than the 123 octets a close frame can carry
+
 REASONS = ["", "x", "é", "ab", "bye", "x" * 122, "x" * 123, "x" * 124, "x" * 200, "x" * 122 + "é", "x" * 121 + "€", "x" * 120 + "😀", "é" * 61 + "ab", "€" * 41, "😀" * 31, "日本語"]
 
 
@@ -64,6 +66,9 @@ class Interp:
         self.hs_fed = False
 
         def on_connect(p, r):
+            if config.get("aconn") == "raise":
+                # onConnect() fails synchronously, with a text that does not fit into a close frame
+                raise RuntimeError(LONG_TEXT)
             if config.get("aconn") and self.connect_pending is None:
                 import txaio
                 self.connect_pending = txaio.create_future()
@@ -157,11 +162,25 @@ class Interp:
                 return
             key = dict(parsed[1]).get("sec-websocket-key")
             self.feed(wsutil.raw_response(key))
-        self.hs_out += self.ep.take()
         self.hs_fed = True
+        self._take_handshake_output()
         if self.is_server and self.connect_pending is not None and not self.connect_done:
             return      # no response yet: the request is complete, the application has not decided
         self.handshook = True
+
+    def _take_handshake_output(self):
+        """what the endpoint wrote while the handshake completed: a server's HTTP response belongs to the handshake, everything after it (and
+        everything a client writes once it has the response - e.g. the close frame after a failing onConnect()) is WebSocket traffic"""
+        data = self.ep.take()
+        if self.is_server:
+            k = data.find(b"\r\n\r\n")
+            if k < 0 or not data.startswith(b"HTTP/1.1 101"):
+                self.hs_out += data
+            else:
+                self.hs_out += data[:k + 4]
+                self.out += data[k + 4:]
+        else:
+            self.out += data
 
     def do_finish_connect(self, outcome):
         """the pending onConnect() result arrives: "ok" (accept) or "fail" (the application's future fails)"""
@@ -180,7 +199,7 @@ class Interp:
                 txaio.resolve(f, None)
             else:
                 try:
-                    raise RuntimeError("application refuses")
+                    raise RuntimeError("application refuses" if outcome == "fail" else LONG_TEXT)
                 except RuntimeError:
                     txaio.reject(f)
         try:
@@ -191,7 +210,7 @@ class Interp:
             self.fail("exception|onConnect-result|" + exc_key(e), repr(e))
         self.d.settle()
         if self.is_server and not self.handshook:
-            self.hs_out += self.ep.take()
+            self._take_handshake_output()
             if RANK.get(self.proto.state) == 2 and not self.ep.loss_delivered:
                 self.handshook = True
 
@@ -531,7 +550,7 @@ def config_strategy():
                                   # real frameworks do (ahead of pending timers and queued writes); False: the history decides when (or whether) it is delivered
                                   "auto_loss": st.sampled_from([False, False, True]),
                                   # True: onConnect() returns a pending Deferred / Future; a rule completes it (or never does)
-                                  "aconn": st.sampled_from([False, False, True])})
+                                  "aconn": st.sampled_from([False, False, False, True, True, "raise"])})
 
 
 def make_machine_factory(col):
@@ -599,7 +618,7 @@ def make_machine_factory(col):
             def deliver_own_drop(self):
                 self.ap("deliver_own_drop")
 
-            @rule(outcome=st.sampled_from(["ok", "ok", "fail"]))
+            @rule(outcome=st.sampled_from(["ok", "ok", "fail", "fail-long"]))
             def finish_connect(self, outcome):
                 self.ap("finish_connect", outcome)
 
@@ -631,7 +650,7 @@ ALPHABET = [("local_close", 1000, None), ("local_close", 3000, "bye"), ("local_s
             ("advance", "to", 0.0), ("advance", "amount", 0.6), ("peer_drop", False), ("peer_drop", True), ("deliver_own_drop",), ("peer_bytes_after_drop",)]
 
 
-ALPHABET_AC = [("finish_connect", "ok"), ("finish_connect", "fail"), ("local_close", 1000, None), ("local_send", "message"), ("peer_close", "valid", 1000, ""),
+ALPHABET_AC = [("finish_connect", "ok"), ("finish_connect", "fail-long"), ("local_close", 1000, None), ("local_send", "message"), ("peer_close", "valid", 1000, ""),
                ("peer_data", "text"), ("advance", "to", 0.0), ("advance", "amount", 0.6), ("peer_drop", False), ("deliver_own_drop",)]
 
 
@@ -672,6 +691,19 @@ def short_histories(col, server, fbd, depth):
             n_ac += 1
             col.case(len(i.sources) >= 2, enum=True, cls=["short_histories_async_onConnect/%s/%s" % ("server" if server else "client", "auto-loss" if al else "scripted-loss")],
                      sample={"config": cfg, "steps": [list(x) for x in seq]} if n_ac % 499 == 1 else None)
+    # onConnect() raising synchronously with a long text (the failure reason has to be cut to fit a close frame)
+    for al, to in grid:
+        cfg = {"server": server, "fbd": fbd, "echo": False, "close_to": to, "drop_to": to, "open_to": 0, "auto_loss": al, "aconn": "raise"}
+        for seq in itertools.product(ALPHABET_AC[2:], repeat=2):
+            i = Interp(col, cfg)
+            try:
+                i.apply(("handshake",))
+                for st_ in seq:
+                    i.apply(st_)
+            finally:
+                i.teardown()
+            n_ac += 1
+            col.case(True, enum=True, cls=["short_histories_raising_onConnect/%s" % ("server" if server else "client")])
     col.exhaustive.append("C05 short_histories with pending onConnect() %s fbd=%s: %d^%d event sequences x 4 configurations = %d histories" % (
         "server" if server else "client", fbd, len(ALPHABET_AC), depth, n_ac))
 
